@@ -5,13 +5,16 @@ package standard
 import (
 	"github.com/attestantio/go-eth2-client/spec/phase0"
 	"github.com/attestantio/vouch/internal/vnd"
+	"github.com/attestantio/vouch/internal/vstub"
 )
 
 // VerifC20_HeadRootsBounded: recording the head root for slot s (done for every
 // slot a sync committee member messages) leaves no root older than a few slots,
 // whether or not an aggregation ever consumed the earlier ones.
 func VerifC20_HeadRootsBounded() {
-	s := &Service{beaconBlockRoots: map[phase0.Slot]phase0.Root{}}
+	// only the bookkeeping of the roots is exercised: the providers are inert;
+	// New leaves the recorded roots empty, the pre-state is filled in below
+	s := c15New("C20.new.accepted", &vstub.ChainTime{SPE: 32, SlotNs: 1 << 33}, &c15Roots{}, &c15Contribs{}, &c15CPSigner{}, &c15Submitter{})
 	slot := phase0.Slot(vnd.U64("slot"))
 	vnd.Assume(slot >= 16 && uint64(slot) < 1<<40)
 	for back := phase0.Slot(1); back <= 6; back++ {
